@@ -99,6 +99,24 @@ func Calibrate() error {
 	if !Add(BaseMul(nm1), G()).Inf {
 		return fmt.Errorf("-G + G != infinity")
 	}
+	// table-driven BaseMul against plain double-and-add
+	x := new(big.Int).SetBytes(sha256Sum([]byte("basemul")))
+	for i := 0; i < 40; i++ {
+		a, b := BaseMul(x), Mul(x, G())
+		if a.Inf != b.Inf || (!a.Inf && (a.X.Cmp(b.X) != 0 || a.Y.Cmp(b.Y) != 0)) || !OnCurve(a) {
+			return fmt.Errorf("BaseMul table disagrees with double-and-add for %x", x)
+		}
+		x.SetBytes(sha256Sum(x.Bytes()))
+		if i%8 == 7 {
+			x.Rsh(x, uint(8*(i/4))) // short scalars too
+		}
+	}
+	for _, e := range []int64{1, 2, 15, 16, 17, 255, 256} {
+		a, b := BaseMul(big.NewInt(e)), Mul(big.NewInt(e), G())
+		if a.X.Cmp(b.X) != 0 || a.Y.Cmp(b.Y) != 0 {
+			return fmt.Errorf("BaseMul(%d) wrong", e)
+		}
+	}
 	// vector embedded in /repo/lib/btc/wallet_test.go
 	prv, _ := hex.DecodeString("bb87a5e3e786ecd05f4901ef7ef32726570bfd176ada37a31ef2861db2834d7e")
 	pt, _ := PubFromPriv(prv)
